@@ -22,6 +22,7 @@ import (
 	"github.com/caddyserver/caddy/v2"
 	"github.com/caddyserver/caddy/v2/modules/caddyhttp"
 	_ "github.com/caddyserver/caddy/v2/modules/standard"
+	"golang.org/x/crypto/bcrypt"
 
 	"verif/harness/internal/core"
 )
@@ -56,9 +57,43 @@ var zooConfigs = []string{
 	  {"match":[{"path":["/d/*"]}],"handle":[{"handler":"rewrite","uri":"{http.request.uri.path.dir}index?#{http.request.uri.path.file}"}]},
 	  {"handle":[{"handler":"static_response","body":"uri={http.request.uri} q={http.request.uri.query} path={http.request.uri.path}"}]}
 	]}}}`,
+	// 4: fields that are expanded when the server is PROVISIONED: the server goes through automatic HTTPS
+	// phase 1 (not disabled, a non-HTTP port, certificates and redirects off), which expands the host
+	// patterns with the global replacer before the matcher expands them again per request; and a basic-auth
+	// account name taken from the environment. The VALUES of these variables contain placeholder syntax.
+	`{"servers":{"s":{"listen":["127.0.0.1:0"],"protocols":["h1"],"automatic_https":{"disable_redirects":true,"disable_certificates":true},"routes":[
+	  {"match":[{"host":["{env.VERIF_C18_ZOO_SITE}"]}],"handle":[{"handler":"static_response","body":"ENV-ROUTE"}],"terminal":true},
+	  {"match":[{"host":["\\{http.request.header.X-In\\}"]}],"handle":[{"handler":"static_response","body":"ESC-ROUTE"}],"terminal":true},
+	  {"match":[{"path":["/auth/*"]}],"handle":[{"handler":"authentication","providers":{"http_basic":{"accounts":[{"username":"{env.VERIF_C18_ZOO_USER}","password":"@BCRYPT@"}]}}},
+	     {"handler":"static_response","body":"AUTHED"}],"terminal":true},
+	  {"handle":[{"handler":"static_response","body":"fallthrough host={http.request.host}"}]}
+	]}}}`,
 }
 
 const zooAdmin = "ADM1N-T0KEN-5512"
+
+// values of the variables config 4 reads at provision time: placeholder syntax that must stay text
+const (
+	zooSite = "{http.request.header.X-In}"
+	zooUser = "{http.request.uri.query.q}"
+	zooPass = "pw-7781"
+)
+
+var (
+	zooHashOnce sync.Once
+	zooHash     string
+)
+
+func zooConfig(idx int) string {
+	zooHashOnce.Do(func() {
+		h, err := bcrypt.GenerateFromPassword([]byte(zooPass), bcrypt.MinCost)
+		if err != nil {
+			panic(err)
+		}
+		zooHash = string(h)
+	})
+	return strings.ReplaceAll(zooConfigs[idx], "@BCRYPT@", zooHash)
+}
 
 var (
 	zooOnce sync.Once
@@ -115,6 +150,9 @@ func zooServe(srv *caddyhttp.Server, r zooReq) string {
 	if r.cookie != "" {
 		req.Header["Cookie"] = []string{"c=" + r.cookie}
 	}
+	if strings.HasPrefix(r.path, "/auth/") {
+		req.SetBasicAuth(r.q, zooPass) // the client presents q as the account name
+	}
 	rec := httptest.NewRecorder()
 	func() {
 		defer func() {
@@ -141,7 +179,7 @@ func zooServer(cfgIdx int) (*caddyhttp.Server, func(), error) {
 		return nil, nil, err
 	}
 	ctx, cancel := caddy.NewContext(b)
-	v, err := ctx.LoadModuleByID("http", json.RawMessage(zooConfigs[cfgIdx]))
+	v, err := ctx.LoadModuleByID("http", json.RawMessage(zooConfig(cfgIdx)))
 	if err != nil {
 		cancel()
 		return nil, nil, err
@@ -161,7 +199,25 @@ func genZoo(rng *core.Rand, emit func(string)) {
 	pickReq := func() string {
 		return strings.Join([]string{core.Hex(rng.Pick(av)), core.Hex(rng.Pick(av)), core.Hex(rng.Pick(cookieVals)), core.Hex(rng.Pick(paths)), core.Hex(rng.Pick(hosts))}, ",")
 	}
-	emit(fmt.Sprintf("zoo %d %s %s", rng.Intn(len(zooConfigs)), pickReq(), pickReq()))
+	idx := rng.Intn(len(zooConfigs))
+	if idx == 4 {
+		// the client names a host / an account in another request field and asks for exactly that
+		pick4 := func() string {
+			x := rng.Pick([]string{"plain", "tenant.example", zooSite, zooUser, "{env." + secretEnv + "}", "example.test"})
+			q := rng.Pick([]string{x, x, "plain", zooUser, zooSite})
+			host := rng.Pick([]string{x, x, "example.test", zooSite, "{http.request.header.X-In}"})
+			path := rng.Pick([]string{"/", "/p"})
+			if rng.Chance(1, 150) {
+				// rare: an unknown account costs a bcrypt comparison against caddy's cost-14 anti-timing hash (~1 s);
+				// corpus/C18/provisioned-fields.txt replays one such request on every run
+				path = "/auth/x"
+			}
+			return strings.Join([]string{core.Hex(x), core.Hex(q), core.Hex(""), core.Hex(path), core.Hex(host)}, ",")
+		}
+		emit(fmt.Sprintf("zoo 4 %s %s", pick4(), pick4()))
+		return
+	}
+	emit(fmt.Sprintf("zoo %d %s %s", idx, pickReq(), pickReq()))
 }
 
 func parseZooReq(s string) (zooReq, bool) {
@@ -193,6 +249,8 @@ func runZoo(line string, f []string) core.Outcome {
 	secret := "S3CR3T-ENV-9942"
 	os.Setenv(secretEnv, secret)
 	os.Setenv("VERIF_C18_ZOO_ADMIN", zooAdmin)
+	os.Setenv("VERIF_C18_ZOO_SITE", zooSite)
+	os.Setenv("VERIF_C18_ZOO_USER", zooUser)
 	defer os.Unsetenv(secretEnv)
 	secretFilePath()
 
@@ -237,6 +295,36 @@ func runZoo(line string, f []string) core.Outcome {
 			o.Failures = append(o.Failures, core.Failure{Class: "zoo-matcher-accepts-placeholder-text-as-secret",
 				What: fmt.Sprintf("config %d: a request that does not carry the admin token (X-In=%q q=%q) reached the area guarded by a matcher on {env.VERIF_C18_ZOO_ADMIN}: %q", idx, rq.xin, rq.q, out)})
 			break
+		}
+	}
+	// fields expanded at provision time (config 4): their VALUES are compared as text at request time
+	if idx == 4 {
+		hostOnly := func(h string) string {
+			if i := strings.LastIndexByte(h, ':'); i >= 0 && !strings.Contains(h[i:], "}") {
+				return h[:i]
+			}
+			return h
+		}
+		for n, rq := range []zooReq{r1, r2} {
+			out := []string{out1, out2}[n]
+			if strings.Contains(out, "ENV-ROUTE") && !strings.EqualFold(hostOnly(rq.host), zooSite) {
+				o.Failures = append(o.Failures, core.Failure{Class: "zoo-provisioned-value-rescanned",
+					What: fmt.Sprintf("config 4: host pattern {env.VERIF_C18_ZOO_SITE} (value %q) matched a request with Host %q, X-In %q: the value was expanded again at request time: %q", zooSite, rq.host, rq.xin, out)})
+				break
+			}
+			if strings.Contains(out, "ESC-ROUTE") && !strings.EqualFold(hostOnly(rq.host), "{http.request.header.X-In}") {
+				o.Failures = append(o.Failures, core.Failure{Class: "zoo-provisioned-value-rescanned",
+					What: fmt.Sprintf("config 4: the escaped host pattern \\{http.request.header.X-In\\} matched a request with Host %q, X-In %q: the escape was consumed by one expansion and the text expanded by another: %q", rq.host, rq.xin, out)})
+				break
+			}
+			if strings.Contains(out, "AUTHED") && rq.q != zooUser {
+				o.Failures = append(o.Failures, core.Failure{Class: "zoo-provisioned-value-rescanned",
+					What: fmt.Sprintf("config 4: basic-auth account {env.VERIF_C18_ZOO_USER} (value %q) accepted the account name %q: %q", zooUser, rq.q, out)})
+				break
+			}
+			if strings.Contains(out, "ENV-ROUTE") || strings.Contains(out, "ESC-ROUTE") || strings.Contains(out, "AUTHED") {
+				o.Tags = append(o.Tags, "zoo-provisioned-field-matched")
+			}
 		}
 	}
 	if out2 != out2fresh {
